@@ -28,6 +28,20 @@ constexpr nterm<int> list("list");
 #define PARSER_ARGS list, terms(',', number), nterms(list), rules( \
         list(number) >= to_int, \
         list(list, ',', number) >= [](int sum, skip, const auto& n){ return sum + to_int(n); })'''),
+ 'nulltail': dict(inputs=['', 'ca', 'caa', 'caaa', 'caaaa', 'c', 'a', 'cab'], code=r'''
+constexpr nterm<int> R("R"); constexpr nterm<int> X("X"); constexpr nterm<int> N("N");
+#define PARSER_ARGS R, terms('a', 'c'), nterms(R, X, N), rules( \
+        R(X, 'a') >= [](int x, skip){ return x; }, \
+        X('c', N, N) >= [](skip, int a, int b){ return a * 10 + b; }, \
+        N('a') >= val(1), N() >= val(0))'''),
+ 'anychar': dict(inputs=['', 'x', '#', '#abc', 'x#y', '##', 'x y', '# x'], code=r'''
+constexpr char any_pattern[] = "."; constexpr regex_term<any_pattern> any("any");
+constexpr char rest_pattern[] = "#[^x]*"; constexpr regex_term<rest_pattern> rest("rest");
+constexpr nterm<int> list("list");
+#define PARSER_ARGS list, terms(rest, any), nterms(list), rules( \
+        list() >= val(0), \
+        list(list, any) >= [](int n, skip){ return n + 1; }, \
+        list(list, rest) >= [](int n, const auto& r){ return n + 100 * int(r.get_value().size()); })'''),
  'nullable': dict(inputs=['', 'a', 'ab', 'b', 'aab', 'ba', 'abb', 'c'], code=r'''
 constexpr nterm<int> S("S"); constexpr nterm<int> A("A"); constexpr nterm<int> B("B");
 #define PARSER_ARGS S, terms('a', 'b'), nterms(S, A, B), rules( \
